@@ -980,4 +980,20 @@ pub proof fn lemma_insert_wf(data: Seq<DatumId>, defs_b: Defs, defs_a: Defs, dc:
 //@end
 
 } // verus!
+
+// crate-path scaffolding: `crate::record::…` paths used inside extracted functions resolve to the
+// items of this single-file unit
+#[allow(unused_imports)]
+pub mod record {
+    pub mod type_resolver { pub use crate::*; }
+    pub mod type_name { pub use crate::*; }
+    pub mod definition {
+        pub use crate::*;
+        pub mod builder {
+            pub use crate::*;
+            pub mod native { pub use crate::*; pub mod variant { pub use crate::*; } }
+            pub mod generic { pub use crate::*; pub mod variant { pub use crate::*; } }
+        }
+    }
+}
 fn main() {}
